@@ -322,7 +322,11 @@ async fn step(c: usize, cop: Cop) {
         }
         Cop::AwaitJoin { j } => {
             let Some((jid, jf)) = world(|w| w.joins.get_mut(j).and_then(|s| s.take())) else { return };
-            let o = op(c, jid, ev::K_JOIN);
+            // a future that was polled before goes on under the operation that polled it
+            let o = match world(|w| w.join_pending.remove(&jid)) {
+                Some(o) => o,
+                None => op(c, jid, ev::K_JOIN),
+            };
             let st = match jf {
                 AnyJoin::T0(f) => f.await.map(|a| a.log),
                 AnyJoin::T1(f) => f.await.map(|a| a.log),
@@ -332,7 +336,10 @@ async fn step(c: usize, cop: Cop) {
         }
         Cop::PollJoin { j } => {
             let Some((jid, mut jf)) = world(|w| w.joins.get_mut(j).and_then(|s| s.take())) else { return };
-            let o = op(c, jid, ev::K_JOIN);
+            let o = match world(|w| w.join_pending.remove(&jid)) {
+                Some(o) => o,
+                None => op(c, jid, ev::K_JOIN),
+            };
             let st = match &mut jf {
                 AnyJoin::T0(f) => futures::poll!(f).map(|r| r.map(|a| a.log)),
                 AnyJoin::T1(f) => futures::poll!(f).map(|r| r.map(|a| a.log)),
@@ -342,7 +349,10 @@ async fn step(c: usize, cop: Cop) {
                 std::task::Poll::Ready(st) => state_ret(o, st),
                 std::task::Poll::Pending => {
                     // stays pending: the future is put back, its operation never returns
-                    world(|w| w.joins[j] = Some((jid, jf)));
+                    world(|w| {
+                        w.joins[j] = Some((jid, jf));
+                        w.join_pending.insert(jid, o);
+                    });
                 }
             }
         }
